@@ -299,7 +299,8 @@ def _judge(rec, fault, entry, p, s, wrapper, term, panel, case):
     except Exception as e:
         if is_library_error(e):
             named = ELEMENT[fault].lower() in str(e).lower()
-            if not named and G.slot_name(p, s) == 'choice' and 'alternative' in str(e).lower():
+            if not named and 'alternative' in str(e).lower() and (
+                    G.slot_name(p, s) == 'choice' or (wrapper is not None and G.slot_name(wrapper[0], wrapper[1]) == 'choice')):
                 # planted as the choice of a logit the element is a second fault as well (its values are not alternatives):
                 # a message explaining that one is an explanatory message too
                 named = True
